@@ -342,7 +342,60 @@ impl<'a> G<'a> {
 pub fn gen_class(rng: &mut Rng, cfg: &GenCfg) -> Class {
     let major = cfg.major.unwrap_or_else(|| if rng.chance(1, 3) { rng.usize_in(45, 67) as u16 } else { *rng.pick(&[45, 49, 50, 51, 52, 52, 55, 61, 61, 65, 67]) });
     let mut g = G { rng, cfg, major };
-    g.class()
+    let mut c = g.class();
+    // drawn after the class itself, so the classes of earlier harness versions are unchanged for a given seed
+    if c.module.is_none() && major >= 51 && g.rng.chance(1, 6) { add_sibling_dynamics(&mut g, &mut c); }
+    c
+}
+
+/// Adds a method whose body loads / invokes several dynamic constants and call sites that SHARE one bootstrap method entry
+/// (same handle, same static arguments) but differ in name and type — javac does this for `ConstantBootstraps.primitiveClass`
+/// and for lambdas of one factory. A reader that resolves dynamic constants per bootstrap index instead of per constant
+/// only shows on this shape.
+fn add_sibling_dynamics(g: &mut G, c: &mut Class) {
+    let mut insns = vec![];
+    if g.major >= 55 {
+        let d = g.dynamic(false, 2);
+        let k = g.rng.usize_in(2, 4);
+        for i in 0..k { let mut di = d.clone(); if i > 0 { di.name = JS::new(&format!("sib{i}")); if g.rng.bool() { di.desc = g.field_desc(); } } insns.push(Insn::Ldc(Const::Dynamic(Box::new(di)))); }
+        // the same pair once more in reverse order: resolution order must not matter either
+        if g.rng.bool() { let a = insns[0].clone(); insns.push(a); }
+    }
+    let d = g.dynamic(true, 2);
+    let k = g.rng.usize_in(2, 3);
+    for i in 0..k { let mut di = d.clone(); if i > 0 { di.name = JS::new(&format!("call{i}")); if g.rng.bool() { di.desc = g.method_desc(); } } insns.push(Insn::InvokeDynamic(Box::new(di))); }
+    insns.push(Insn::Op(177));
+    let code = Code { max_stack: 8, max_locals: 1, insns, ..Default::default() };
+    c.methods.push(Method { access: 0x0008, name: JS::new("siblings$dyn"), desc: JS::new("()V"), code: Some(code), ..Default::default() });
+}
+
+/// Grows one u2- or u1-counted table of `c` to a boundary size (255 / 256 / 32767 / 32768 / 65535 entries; 255 for the
+/// one-byte counts). Returns (which table, entries). Needs `c.major >= 61` for the newest attributes (the caller fixes the version).
+pub fn add_big_table(rng: &mut Rng, c: &mut Class) -> (&'static str, usize) {
+    const N16: [usize; 8] = [255, 256, 257, 32_766, 32_767, 32_768, 40_000, 65_535];
+    let names = [JS::new("big/A"), JS::new("big/B"), JS::new("big/C$D")];
+    let n = *rng.pick(&N16);
+    let classes = |n: usize| -> Vec<JS> { (0..n).map(|i| names[i % 3].clone()).collect() };
+    let with_code: Vec<usize> = (0..c.methods.len()).filter(|i| c.methods[*i].code.is_some()).collect();
+    let mut choices: Vec<&'static str> = vec!["interfaces", "inner_classes"];
+    if c.module.is_none() { if c.major >= 55 { choices.push("nest_members"); } if c.major >= 61 { choices.push("permitted_subclasses"); } }
+    if c.module.is_some() { choices.push("module_packages"); }
+    if !c.methods.is_empty() { choices.push("method.exceptions"); if c.major >= 52 { choices.push("method.method_parameters(255)"); } }
+    if !with_code.is_empty() { choices.push("code.line_numbers"); choices.push("code.lvt"); choices.push("code.exception_table"); }
+    let what = *rng.pick(&choices);
+    match what {
+        "interfaces" => { c.interfaces = classes(n); }
+        "inner_classes" => { c.inner_classes = Some((0..n).map(|i| InnerClass { inner: names[i % 3].clone(), outer: if i % 2 == 0 { Some(names[(i + 1) % 3].clone()) } else { None }, name: None, flags: (i % 2) as u16 }).collect()); }
+        "nest_members" => { c.nest_host = None; c.nest_members = Some(classes(n)); }
+        "permitted_subclasses" => { c.permitted_subclasses = Some(classes(n)); }
+        "module_packages" => { c.module_packages = Some((0..n).map(|i| JS::new(["a/b", "p", "x/y/z"][i % 3])).collect()); }
+        "method.exceptions" => { let i = rng.below(c.methods.len()); c.methods[i].exceptions = Some(classes(n)); }
+        "method.method_parameters(255)" => { let i = rng.below(c.methods.len()); c.methods[i].method_parameters = Some((0..255).map(|k| (if k % 2 == 0 { Some(JS::new("p")) } else { None }, 0x0010)).collect()); return (what, 255); }
+        "code.line_numbers" => { let i = *rng.pick(&with_code); if let Some(code) = c.methods[i].code.as_mut() { let k = code.insns.len() as Pos; code.line_numbers = Some((0..n).map(|j| (j as Pos % k, j as u16)).collect()); } }
+        "code.lvt" => { let i = *rng.pick(&with_code); if let Some(code) = c.methods[i].code.as_mut() { let k = code.insns.len() as Pos; code.lvt = Some((0..n).map(|j| LocalVar { start: 0, end: k, name: JS::new("v"), desc_or_sig: JS::new("I"), index: j as u16 }).collect()); } }
+        _ => { let i = *rng.pick(&with_code); if let Some(code) = c.methods[i].code.as_mut() { let k = code.insns.len() as Pos; code.exceptions = (0..n).map(|j| ExcEntry { start: 0, end: k, handler: j as Pos % k, catch: if j % 2 == 0 { None } else { Some(names[j % 3].clone()) } }).collect(); } }
+    }
+    (what, n)
 }
 
 /// Adds one large u4-counted payload to `c` (a legal but unusual shape: the only lists of the format whose length field is
